@@ -36,7 +36,7 @@ def many_tables_segment(rep, tier, seed):
     for r in range(rounds):
         ops += ['get %s -' % k.hex() for k in keys] + ['scan -', 'rscan -', 'iter - ' + ','.join('S%s' % keys[(7 * j + r) % n].hex() for j in range(12))]
         marks.append(len(ops)); ops.append('fds')
-    opts = {'write_buffer': 65536, 'mmap': 0, 'cache': 0, 'max_open_files': 1000, 'bloom': 10}
+    opts = {'write_buffer': 65536, 'mmap': 0, 'cache': 0, 'max_open_files': 1000, 'bloom': 10, 'nofile': 256}    # 256 / 5 = 51 permanent read-only descriptors
     rc, txt, err = k2lib.run_c(k2, os.path.join(out, 'mt'), opts, ops)
     calls = k2lib.parse_trace(txt)
     rep.evaluated(len(calls)); rep.nontrivial(('many-tables', n, rounds))
